@@ -29,6 +29,12 @@
 //                               -> diff n=<#fields> field=<first differing field> idx=<element> base=<value> got=<value> fields=<names>
 //                               -> error <msg>
 //   field <name>                -> the kept base value of a field (hex bits), for replays
+//   toy <nthread> <seed> <style> <nmem> <scrbase> | <prog> ; <prog> ; …
+//                               a batch of toy tasks (one register; tokens r<loc> w<loc> a<int> m<int> t sr sw, '-' = empty)
+//                               over an integer array with m0[l] = 3*l+1 is dispatched through the real mju_dispatch
+//                               under the controlled scheduler with a scheduling point before every micro-operation
+//                               -> asg <t>:<ids> … | sched <t>,<t>,… | mem <v0> … <v(nmem-1)>
+//                               (the assignment and the step schedule that were observed, for the replay in the Lean model)
 //   anything else               bad-op
 #include <atomic>
 #include <chrono>
@@ -38,6 +44,7 @@
 #include <cstdio>
 #include <cstdlib>
 #include <cstring>
+#include <functional>
 #include <map>
 #include <mutex>
 #include <string>
@@ -81,6 +88,41 @@ struct Log {
 Log g_log;
 
 #ifndef C02_PLAIN
+struct ToyOp { char k; long v; };
+struct Toy {
+  std::vector<std::vector<ToyOp>> progs;
+  std::vector<long> mem;
+  int scr = 0;
+  std::mutex mu;
+  std::vector<int> sched;                      // thread id of every model-level step, in the order granted
+  std::map<int, std::vector<int>> asg;         // thread id -> task ids in claim order
+};
+Toy* g_toy = nullptr;
+
+void toy_point(int tid) {
+  if (c03::controlled()) c03::park(c03::ThreadRec::READY);
+  std::lock_guard<std::mutex> lk(g_toy->mu);
+  g_toy->sched.push_back(tid);
+}
+
+void toy_task(const mjModel*, mjData*, void* arg, int thread_id, int task_id) {
+  Toy* T = static_cast<Toy*>(arg);
+  long reg = 0;
+  for (const ToyOp& op : T->progs[task_id]) {
+    toy_point(thread_id);
+    switch (op.k) {
+      case 'r': reg = T->mem[op.v]; break;
+      case 'w': T->mem[op.v] = reg; break;
+      case 'a': reg += op.v; break;
+      case 'm': reg *= op.v; break;
+      case 't': reg += thread_id; break;
+      case 'S': reg = T->mem[T->scr + thread_id]; break;
+      case 'W': T->mem[T->scr + thread_id] = reg; break;
+    }
+  }
+  toy_point(thread_id);   // the step on which the model's task returns
+}
+
 struct WrapArg { mjTaskFunc func; void* arg; int dispatch; };
 
 void wrapped_task(const mjModel* m, mjData* d, void* a, int thread_id, int task_id) {
@@ -89,6 +131,11 @@ void wrapped_task(const mjModel* m, mjData* d, void* a, int thread_id, int task_
   {
     std::lock_guard<std::mutex> lk(g_log.mu);
     g_log.recs.push_back({w->dispatch, thread_id, task_id});
+  }
+  if (g_toy) {   // the model's claim step
+    std::lock_guard<std::mutex> lk(g_toy->mu);
+    g_toy->sched.push_back(thread_id);
+    g_toy->asg[thread_id].push_back(task_id);
   }
   w->func(m, d, w->arg, thread_id, task_id);
 }
@@ -111,6 +158,22 @@ extern "C" void mju_dispatch(const mjModel* m, mjData* d, mjTaskFunc func, void*
 #endif
 
 namespace {
+
+std::vector<std::string> words(char* line) {
+  std::vector<std::string> w;
+  char* save;
+  for (char* t = strtok_r(line, " \t\r\n", &save); t; t = strtok_r(nullptr, " \t\r\n", &save)) w.push_back(t);
+  return w;
+}
+
+bool parse_long(const std::string& s, long lo, long hi, long* out) {
+  if (s.empty() || s.size() > 10) return false;
+  for (char c : s) if (c < '0' || c > '9') return false;
+  long v = atol(s.c_str());
+  if (v < lo || v > hi) return false;
+  *out = v;
+  return true;
+}
 
 // ---------------------------------------------------------------------------------------------- model / state
 mjModel* m = nullptr;
@@ -423,6 +486,60 @@ struct Rng {
 };
 #endif
 
+#ifndef C02_PLAIN
+int style_code(const std::string& style) {
+  return style == "uniform" ? 0 : style == "starve-main" ? 1 : style == "favour-main" ? 2 : style == "hog" ? 3 :
+         style == "bursty" ? 4 : style == "reverse" ? 5 : -1;
+}
+
+// run `body` as thread 0 of C03's controlled scheduler; the next thread is drawn from the enabled ones by a seeded
+// generator biased by the style.  Returns true when no thread is enabled before `body` has finished.
+bool run_controlled(std::function<void()> body, int nthread, long seed, int st, long* events) {
+  c03::Global& g = c03::G();
+  Rng rng((uint64_t)seed);
+  c03::Sched* s = new c03::Sched();
+  g.sched = s;
+  g.atomic_ctor_counter = 0;
+  g.mode.store(c03::CTRL);
+  c03::ThreadRec* r0 = new c03::ThreadRec();
+  r0->id = 0;
+  s->th.push_back(r0);
+  c03::start_thread(s, r0, body);
+  Controller c(s);
+  std::vector<int> en;
+  int hog = 1 + rng.below(nthread > 0 ? nthread : 1), last = -1;
+  bool dead = false;
+  while (!c.main_done()) {
+    c.enabled(&en);
+    if (en.empty()) { dead = true; break; }
+    int pick = en[rng.below((int)en.size())];
+    double u = rng.uni();
+    auto has = [&en](int t) { for (int x : en) if (x == t) return true; return false; };
+    if (st == 1) {            // the dispatching thread runs only when nothing else can, or rarely
+      if (en.size() > 1 && pick == 0 && u < 0.97) pick = en[1 + rng.below((int)en.size() - 1)];
+    } else if (st == 2) {     // the dispatching thread runs whenever it can, workers rarely
+      if (has(0) && u < 0.9) pick = 0;
+    } else if (st == 3) {     // one worker gets most steps
+      if (has(hog) && u < 0.85) pick = hog;
+    } else if (st == 4) {     // long bursts of one thread
+      if (last >= 0 && has(last) && u < 0.92) pick = last;
+    } else if (st == 5) {     // highest thread id first: late claimers finish first
+      if (u < 0.9) pick = en.back();
+    }
+    last = pick;
+    c.step(pick);
+    if (s->steps > 50000000L) { dead = true; break; }
+  }
+  *events = s->steps;
+  g.mode.store(c03::PASS);
+  if (!dead) {
+    g.sched = nullptr;
+    delete s;
+  }
+  return dead;
+}
+#endif
+
 // the pooled run: everything that touches the pool happens on the calling (dispatching) thread
 void pooled_body(mjData* d, int nthread, Snap* out) {
   mju_threadpool(d, nthread);
@@ -460,53 +577,14 @@ std::string do_run(const std::string& mode, int nthread, long seed, const std::s
     g.mode.store(c03::PASS);
     events = g.free_ops.exchange(0);
   } else if (mode == "ctrl") {
-    // weights per style; thread 0 is the dispatching thread
-    Rng rng((uint64_t)seed);
-    int st = style == "uniform" ? 0 : style == "starve-main" ? 1 : style == "favour-main" ? 2 : style == "hog" ? 3 :
-             style == "bursty" ? 4 : style == "reverse" ? 5 : -1;
+    int st = style_code(style);
     if (st < 0) { alarm(0); mj_deleteData(d); return "bad-op"; }
-    c03::Sched* s = new c03::Sched();
-    g.sched = s;
-    g.atomic_ctor_counter = 0;
-    g.mode.store(c03::CTRL);
-    c03::ThreadRec* r0 = new c03::ThreadRec();
-    r0->id = 0;
-    s->th.push_back(r0);
-    c03::start_thread(s, r0, [d, nthread, &got]() { pooled_body(d, nthread, &got); });
-    Controller c(s);
-    std::vector<int> en;
-    int hog = 1 + rng.below(nthread > 0 ? nthread : 1), last = -1;
-    bool dead = false;
-    while (!c.main_done()) {
-      c.enabled(&en);
-      if (en.empty()) { dead = true; break; }
-      int pick = en[rng.below((int)en.size())];
-      double u = rng.uni();
-      auto has = [&en](int t) { for (int x : en) if (x == t) return true; return false; };
-      if (st == 1) {            // the dispatching thread runs only when nothing else can, or rarely
-        if (en.size() > 1 && pick == 0 && u < 0.97) pick = en[1 + rng.below((int)en.size() - 1)];
-      } else if (st == 2) {     // the dispatching thread runs whenever it can, workers rarely
-        if (has(0) && u < 0.9) pick = 0;
-      } else if (st == 3) {     // one worker gets most steps
-        if (has(hog) && u < 0.85) pick = hog;
-      } else if (st == 4) {     // long bursts of one thread
-        if (last >= 0 && has(last) && u < 0.92) pick = last;
-      } else if (st == 5) {     // highest thread id first: late claimers finish first
-        if (u < 0.9) pick = en.back();
-      }
-      last = pick;
-      c.step(pick);
-      if (s->steps > 50000000L) { dead = true; break; }
-    }
-    events = s->steps;
-    g.mode.store(c03::PASS);
+    bool dead = run_controlled([d, nthread, &got]() { pooled_body(d, nthread, &got); }, nthread, seed, st, &events);
     if (dead) {
       // the stuck threads stay parked on the abandoned scheduler; nothing of this run is reused
       alarm(0);
       return "error scheduler: no enabled thread before the run finished (deadlock) after " + std::to_string(events) + " steps";
     }
-    g.sched = nullptr;
-    delete s;
   } else {
     alarm(0);
     mj_deleteData(d);
@@ -534,21 +612,95 @@ std::string do_field(const std::string& name) {
   return "bad-op";
 }
 
-std::vector<std::string> words(char* line) {
-  std::vector<std::string> w;
-  char* save;
-  for (char* t = strtok_r(line, " \t\r\n", &save); t; t = strtok_r(nullptr, " \t\r\n", &save)) w.push_back(t);
-  return w;
-}
+#ifndef C02_PLAIN
+mjModel* g_empty = nullptr;
 
-bool parse_long(const std::string& s, long lo, long hi, long* out) {
-  if (s.empty() || s.size() > 10) return false;
-  for (char c : s) if (c < '0' || c > '9') return false;
-  long v = atol(s.c_str());
-  if (v < lo || v > hi) return false;
-  *out = v;
+bool parse_toy_prog(const std::string& text, int nmem, std::vector<ToyOp>* out) {
+  out->clear();
+  std::vector<char> buf(text.begin(), text.end());
+  buf.push_back(0);
+  std::vector<std::string> w = words(buf.data());
+  if (w.empty()) return false;
+  if (w.size() == 1 && w[0] == "-") return true;
+  for (const std::string& t : w) {
+    if (t == "t") { out->push_back({'t', 0}); continue; }
+    if (t == "sr") { out->push_back({'S', 0}); continue; }
+    if (t == "sw") { out->push_back({'W', 0}); continue; }
+    if (t.size() < 2 || t.size() > 7) return false;
+    char k = t[0];
+    std::string rest = t.substr(1);
+    bool neg = rest[0] == '-';
+    std::string digits = neg ? rest.substr(1) : rest;
+    if (digits.empty()) return false;
+    for (char c : digits) if (c < '0' || c > '9') return false;
+    long v = atol(rest.c_str());
+    if (k == 'r' || k == 'w') { if (neg || v >= nmem) return false; out->push_back({k, v}); }
+    else if (k == 'a' || k == 'm') out->push_back({k, v});
+    else return false;
+  }
   return true;
 }
+
+std::string do_toy(const std::string& rest) {
+  size_t bar = rest.find('|');
+  if (bar == std::string::npos) return "bad-op";
+  std::vector<char> hb(rest.begin(), rest.begin() + bar);
+  hb.push_back(0);
+  std::vector<std::string> h = words(hb.data());
+  long nthread, seed, nmem, scr;
+  if (h.size() != 5 || !parse_long(h[0], 0, 16, &nthread) || !parse_long(h[1], 0, 2000000000L, &seed) ||
+      !parse_long(h[3], 1, 4096, &nmem) || !parse_long(h[4], 0, 4096, &scr))
+    return "bad-op";
+  int st = style_code(h[2]);
+  if (st < 0 || scr + nthread + 1 > nmem) return "bad-op";
+  Toy T;
+  std::string progs = rest.substr(bar + 1);
+  size_t pos = 0;
+  for (;;) {
+    size_t semi = progs.find(';', pos);
+    std::vector<ToyOp> p;
+    if (!parse_toy_prog(progs.substr(pos, semi == std::string::npos ? std::string::npos : semi - pos), (int)nmem, &p))
+      return "bad-op";
+    T.progs.push_back(p);
+    if (semi == std::string::npos) break;
+    pos = semi + 1;
+  }
+  if (T.progs.size() > 1000) return "bad-op";
+  T.scr = (int)scr;
+  T.mem.resize(nmem);
+  for (long l = 0; l < nmem; l++) T.mem[l] = 3 * l + 1;
+  if (!g_empty) {
+    mjSpec* sp = mj_makeSpec();
+    g_empty = mj_compile(sp, nullptr);
+    if (!g_empty) return "error cannot compile the empty model";
+  }
+  mjData* d = mj_makeData(g_empty);
+  g_toy = &T;
+  long events = 0;
+  alarm(600);
+  int ntask = (int)T.progs.size();
+  Toy* tp = &T;
+  bool dead = run_controlled([d, nthread, ntask, tp]() {
+    mju_threadpool(d, (int)nthread);
+    mju_dispatch(g_empty, d, toy_task, tp, ntask);
+    mju_threadpool(d, 0);
+  }, (int)nthread, seed, st, &events);
+  alarm(0);
+  g_toy = nullptr;
+  if (dead) return "error scheduler: deadlock after " + std::to_string(events) + " steps";
+  mj_deleteData(d);
+  std::string out = "asg";
+  for (auto& kv : T.asg) {
+    out += " " + std::to_string(kv.first) + ":";
+    for (size_t i = 0; i < kv.second.size(); i++) out += (i ? "," : "") + std::to_string(kv.second[i]);
+  }
+  out += " | sched ";
+  for (size_t i = 0; i < T.sched.size(); i++) out += (i ? "," : "") + std::to_string(T.sched[i]);
+  out += " | mem";
+  for (long l = 0; l < nmem; l++) out += " " + std::to_string(T.mem[l]);
+  return out;
+}
+#endif
 
 }  // namespace
 
@@ -585,6 +737,12 @@ int main() {
           out = buf;
         }
       }
+#ifndef C02_PLAIN
+    } else if (w[0] == "toy") {
+      std::string l2;
+      for (size_t i = 1; i < w.size(); i++) l2 += (i > 1 ? " " : "") + w[i];
+      out = do_toy(l2);
+#endif
     } else if (!m) {
       out = w[0] == "model" ? "bad-op" : "error no model";
     } else if (w[0] == "state" && w.size() >= 2) {
